@@ -170,7 +170,7 @@ struct Outcome {
 /// CHECK_ART = a caller-given summary_artifact_id is tested for existence (fix in /repo);
 /// BUNDLE_FIRST = the bundle is written before the child is created (fix in /repo).
 const CHECK_ART: bool = true;
-const BUNDLE_FIRST: bool = false;
+const BUNDLE_FIRST: bool = true;
 
 const MD: &str = "# handoff summary\n- carried context";
 
@@ -316,6 +316,8 @@ fn do_call(env: &mut Env, hs: &[Hdr], before: &[u8], kind: Kind, th: usize, sel:
             }
         }
     };
+    // the unwritable store is only meaningful when ripd has to write the bundle itself
+    let bundle_fail = bundle_fail && art.is_none() && md.is_some();
     let art_exists = art.as_ref().map(|x| blobs_dir(env).join(x).is_file()).unwrap_or(false);
 
     // ---- environment faults
@@ -391,6 +393,20 @@ fn do_call(env: &mut Env, hs: &[Hdr], before: &[u8], kind: Kind, th: usize, sel:
             if !added.is_empty() {
                 let class = if bundle_fail && err_code(e) == 6 { "failed_handoff_left_orphan_thread" } else { "failing_call_wrote_frames" };
                 viol!(format!("{kind:?} failed ({e}) but appended {} frame(s)", added.len()), class);
+            }
+            // a selector that lies within the source thread as it is, with an acceptable summary, must be served
+            let sel_ok = match sel {
+                Sel::None => true,
+                Sel::Seq(_) => from_seq.map(|n| n <= head).unwrap_or(false),
+                Sel::Msg(_) => from_mid.as_ref().map(|m| msgs.iter().any(|h| h.id == *m)).unwrap_or(false),
+                Sel::Both => false,
+            };
+            let summary_ok = match kind {
+                Kind::Branch => true,
+                Kind::Handoff(s) => matches!(s, Summary::Markdown | Summary::ArtifactExisting | Summary::BothExisting) && !bundle_fail,
+            };
+            if stale.is_none() && !truth.is_empty() && sel_ok && summary_ok {
+                viol!(format!("{kind:?} rejected a request that lies within the source thread (head {head}, from_seq {from_seq:?}, from_message_id {from_mid:?}): {e}"), "valid_request_rejected");
             }
         }
         Ok((child, cut, mid)) => {
@@ -640,7 +656,7 @@ fn gen_call(r: &mut Rng, threads: usize, focus: usize) -> Op {
     };
     let th = if r.chance(1, 25) { 1000 } else if r.chance(1, 2) { focus } else { r.below(threads as u64) as usize };
     let stale = if r.chance(1, 10) { Some(r.range(1, 3) as usize) } else { None };
-    let bundle_fail = matches!(kind, Kind::Handoff(_)) && r.chance(1, 10);
+    let bundle_fail = kind == Kind::Handoff(Summary::Markdown) && r.chance(1, 5);
     Op::Call { kind, th, sel: gen_sel(r), stale, bundle_fail }
 }
 fn gen_case(r: &mut Rng, long: bool) -> Vec<Op> {
